@@ -33,6 +33,57 @@ def fn_body(src, header_re):
         j += 1
     return None
 
+def rust_expr_to_lean(expr, idents):
+    """Translate a side-effect-free Rust integer/boolean expression over `idents` into a Lean Bool/Nat expression
+    (Rust precedence: unary, + -, << >>, &, ^, |, comparisons, &&, ||).  Returns None for anything else."""
+    toks = re.findall(r"\s*(0x[0-9a-fA-F_]+|\d[\d_]*|[A-Za-z_][A-Za-z_0-9]*|<<|>>|==|!=|<=|>=|&&|\|\||[-+&|^<>()!])", expr)
+    if "".join(toks) != re.sub(r"\s+", "", expr):
+        return None
+    pos = [0]
+    def peek():
+        return toks[pos[0]] if pos[0] < len(toks) else None
+    def take():
+        t = peek(); pos[0] += 1; return t
+    class Bad(Exception):
+        pass
+    def atom():
+        t = take()
+        if t is None:
+            raise Bad()
+        if t == "(":
+            e = level(0)
+            if take() != ")":
+                raise Bad()
+            return "(" + e + ")"
+        if t == "!":
+            return "(!" + atom() + ")"
+        if re.fullmatch(r"0x[0-9a-fA-F_]+|\d[\d_]*", t):
+            return str(int(t.replace("_", ""), 0))
+        if t in idents:
+            return idents[t]
+        raise Bad()
+    LEVELS = [["||"], ["&&"], ["==", "!=", "<", "<=", ">", ">="], ["|"], ["^"], ["&"], ["<<", ">>"], ["+", "-"]]
+    LEAN = {"||": "||", "&&": "&&", "==": "==", "!=": "!=", "|": "|||", "^": "^^^", "&": "&&&", "<<": "<<<", ">>": ">>>", "+": "+", "-": "-"}
+    def level(i):
+        if i == len(LEVELS):
+            return atom()
+        e = level(i + 1)
+        while peek() in LEVELS[i]:
+            op = take()
+            r = level(i + 1)
+            if op in ("<", "<=", ">", ">="):
+                e = {"<": f"(Nat.blt {e} {r})", "<=": f"(Nat.ble {e} {r})", ">": f"(Nat.blt {r} {e})", ">=": f"(Nat.ble {r} {e})"}[op]
+            else:
+                e = f"({e} {LEAN[op]} {r})"
+        return e
+    try:
+        e = level(0)
+        if pos[0] != len(toks):
+            return None
+        return e
+    except Bad:
+        return None
+
 ORD = {"Relaxed": ".relaxed", "Acquire": ".acquire", "Release": ".release", "AcqRel": ".acqrel", "SeqCst": ".seqcst"}
 
 def atomic_ops(body, calls=()):
@@ -116,6 +167,15 @@ def main():
     if re.search(r"if new_seq == seq \{ Ok\(value\) \} else \{ Err", rn):
         rops.append('.call "guard_same"')
     out.append(lean_list("syncCellTryRead", rops, "`SyncCellReader::try_read` (guards: early return on an odd sequence; final equality test)"))
+    # the two tests of try_read as functions, for the failing-history search of M-SEQLOCK (whatever they are)
+    m1 = re.search(r"let seq = self\.inner\.sequence\.load\(Ordering::\w+\); if (.+?) \{ return Err\(SyncCellReadError \{\}\); \}", rn)
+    m2 = re.search(r"let new_seq = self\.inner\.sequence\.load\(Ordering::\w+\); if (.+?) \{ Ok\(value\) \} else \{ Err\(SyncCellReadError \{\}\) \}", rn)
+    e1 = rust_expr_to_lean(m1.group(1), {"seq": "seq"}) if m1 else None
+    e2 = rust_expr_to_lean(m2.group(1), {"seq": "seq", "new_seq": "newSeq"}) if m2 else None
+    out.append("/-- both tests of `try_read` could be translated -/\ndef tryReadTestsTranslated : Bool := " + ("true" if (e1 is not None and e2 is not None) else "false"))
+    out.append("/-- `try_read` gives up right after its first load of the sequence when this holds -/\ndef tryReadEarlyReject (seq : Nat) : Bool := " + (e1 if e1 and e2 else "seq % 2 == 1"))
+    out.append("/-- `try_read` returns the value it has read when this holds of the first and second sequence loads -/\ndef tryReadAccept (seq newSeq : Nat) : Bool := " + (e2 if e1 and e2 else "newSeq == seq"))
+
     mt = rd("time/monotonic_time.rs")
     ts = fn_body(mt, r"fn\s+tearable_store\s*\([^)]*\)\s*\{")
     tl = fn_body(mt, r"fn\s+tearable_load\s*\([^)]*\)[^{]*\{")
